@@ -740,7 +740,7 @@ void runPlan(const Plan &plan, pbt::Case &c)
               {
                 auto r = tp->connectSync("127.0.0.1", hole.port, TlsMode::None,
                                          std::chrono::milliseconds(viaPlainPointer ? kBorrowerTimeoutMs : timeouts[op.a % 3]));
-                if (r.isOk()) tp->close(r.value());
+                if (r.isOk() && !viaPlainPointer) tp->close(r.value()); // a borrower makes NO call after its parking call
                 break;
               }
               case SyncListening:
@@ -752,7 +752,7 @@ void runPlan(const Plan &plan, pbt::Case &c)
               case SyncRefused:
               {
                 auto r = tp->connectSync("127.0.0.1", ctx->refusedPort, TlsMode::None, std::chrono::milliseconds(1000));
-                if (r.isOk()) tp->close(r.value()); // (UDP: connect always succeeds)
+                if (r.isOk() && !viaPlainPointer) tp->close(r.value()); // (UDP: connect always succeeds)
                 break;
               }
               case RecvSync:
@@ -1120,19 +1120,15 @@ void runPlan(const Plan &plan, pbt::Case &c)
               int kind = (cy.parkKinds >> (2 * i)) & 3;
               char buf[32];
               std::size_t len = sizeof(buf);
-              st[static_cast<std::size_t>(i)]->store(1);
               try
               {
-                if (kind == 2)
+                // PRELIMINARY calls (state still 0: the gate cannot pass, `sp` keeps the object alive).
+                // They are counted by the handshake for an instant each, which is why they must all be
+                // over before the "final call" flag goes up.
+                if (kind == 1)
                 {
-                  auto r = tp->connectSync("127.0.0.1", ctx->refusedPort, TlsMode::None, std::chrono::milliseconds(120000));
-                  if (r.isOk()) ctx->fail("C05/op-succeeds-after-stop/connectSync", "connectSync() returned ok on a stopped transport");
-                }
-                else if (kind == 1)
-                {
-                  // a reader that comes back after it consumed the PeerClosed tombstone
-                  // (bytes buffered in Sync mode before the stop are legitimately returned first:
-                  // drain-before-EOF; any result is a definite result)
+                  // a reader that comes back after it consumed the PeerClosed tombstone (bytes buffered
+                  // in Sync mode before the stop are legitimately returned first: drain-before-EOF)
                   (void)tp->setReadMode(drained, ReadMode::Sync);
                   for (int k = 0; k < 200; ++k)
                   {
@@ -1141,6 +1137,17 @@ void runPlan(const Plan &plan, pbt::Case &c)
                     if (!r0.isOk() && r0.error().code == TransportError::Timeout) break; // drained AND tombstone consumed
                   }
                   len = sizeof(buf);
+                }
+                // From here on: exactly ONE call, the parking one, and nothing after it touches the
+                // transport. state==1 + "counted by parked()" therefore means: inside that call.
+                st[static_cast<std::size_t>(i)]->store(1);
+                if (kind == 2)
+                {
+                  auto r = tp->connectSync("127.0.0.1", ctx->refusedPort, TlsMode::None, std::chrono::milliseconds(120000));
+                  if (r.isOk()) ctx->fail("C05/op-succeeds-after-stop/connectSync", "connectSync() returned ok on a stopped transport");
+                }
+                else if (kind == 1)
+                {
                   (void)tp->receiveSync(drained, buf, len, std::chrono::milliseconds(120000));
                 }
                 else
